@@ -139,6 +139,8 @@ fn operands() -> Vec<Term> {
         strq("a"), strq("b"), strb("a b"), boolw("true"), boolw("off"),
         var("vi", "-3"), var("vm", "-9223372036854775808"), var("vf", "2.5"), var("vs", "abc"), var("vl", "a b c"),
         var("vz", "0"), cmd("5"), cmd("x y"), cmd(" 12 "), var("vx", "0x1F"), var("vn", "-0.0"),
+        // neighbouring integers that no f64 tells apart
+        int(9223372036854775806), int(9007199254740993), int(9007199254740992), var("vm1", "-9223372036854775807"),
     ]
 }
 
